@@ -218,28 +218,30 @@ def pmap(fn_name, arglist, procs=None, chunksize=16):
     return _confirm_hangs(jobs, results)
 
 
-_CONFIRMED = 0
+_CONFIRM = {"hangs": 0, "seconds": 0.0}
 
 
 def _confirm_hangs(jobs, results):
-    """A watchdog hit on a loaded machine is not yet a hang: every 'hang' is re-run alone (nothing else running
-    in this harness) with a 12x watchdog before it is reported.  Keeps starved runs from raising false alarms."""
-    global _CONFIRMED
+    """A watchdog hit on a loaded machine is not yet a hang: a 'hang' is re-run alone (nothing else running in this
+    harness) with a 12x watchdog (at most 120 s) before it is reported.  Keeps starved runs from raising false
+    alarms.  Budget per process: three confirmed hangs or 300 s spent confirming (a tree that hangs -- or is merely
+    exponentially slow -- on many inputs must not stall the check); after that, watchdog hits are reported as they are."""
+    import time
     for i, (job, r) in enumerate(zip(jobs, results)):
         if isinstance(r, dict) and r.get("outcome") == "hang" and job[0] == "assemble":
-            if _CONFIRMED >= 3:
-                # three hangs were already confirmed by this process: the rest are reported as they are
-                # (each confirmation costs up to 2 minutes; a tree that hangs broadly must not stall the check)
+            if _CONFIRM["hangs"] >= 3 or _CONFIRM["seconds"] >= 300:
                 r["hang_not_reconfirmed"] = True
                 continue
             fn, a, k = job
             k2 = dict(k)
             k2["watchdog"] = min(120.0, 12 * float(k.get("watchdog") or WATCHDOG_S))
+            t0 = time.time()
             r2 = _run_one((fn, a, k2))
+            _CONFIRM["seconds"] += time.time() - t0
             if isinstance(r2, dict):
                 r2["first_attempt_hit_watchdog"] = True
                 if r2.get("outcome") == "hang":
-                    _CONFIRMED += 1
+                    _CONFIRM["hangs"] += 1
             results[i] = r2
     return results
 
